@@ -15,9 +15,11 @@ underflow range.  That is a statement about `min over patterns` of a per-pattern
 sum over patterns says nothing about the worst one (seeded change C03_h: early exit on the weighted
 mean site log-likelihood).
 
-* `underflow_source_shape`: the source of `_underflow`, re-read on every run by
-  `harness/translators/tr_c03_underflow.py`, has the structure of `TT.C03.underflowCoded`: isinf guard,
-  no early `return False`, `torch.any` over sites of `torch.amax(root, dim=(-3,-2)) < self.threshold`.
+* `underflow_source_shape`: the switch test, found by ROLE (the test that gates `self.rescale = True`;
+  method name, named intermediates, `x.any()` vs `torch.any(x)`, one level of private helpers do not
+  matter) and re-read on every run by `harness/translators/tr_c03_underflow.py`, has the structure of
+  `TT.C03.underflowCoded`: exactly two disjuncts, `any(isinf(log_p))` and `any` over sites of
+  `amax(root partial, dim=(-3,-2)) < self.threshold`, and no `return False`.
 * `underflow_fires_on_worst_site`: one site pattern whose root partials are all below the threshold is
   enough, whatever the other patterns, their weights, the mean or the total look like.
 * `kept_plain_all_sites_bounded`: if the test does not fire, EVERY site likelihood is at least
@@ -31,11 +33,11 @@ variable {N K S : Nat}
 
 /-- the code read from the source has the structure the model assumes -/
 theorem underflow_source_shape :
-    TTGen.C03_Underflow.recognised = true ∧ TTGen.C03_Underflow.stmtCount = 3 ∧
+    TTGen.C03_Underflow.recognised = true ∧ TTGen.C03_Underflow.disjuncts = 2 ∧
     TTGen.C03_Underflow.isinfGuard = true ∧ TTGen.C03_Underflow.earlyFalseExits = 0 ∧
     TTGen.C03_Underflow.siteQuantifier = "any" ∧ TTGen.C03_Underflow.statistic = "amax" ∧
     TTGen.C03_Underflow.statDims = [-3, -2] ∧ TTGen.C03_Underflow.comparison = "<" ∧
-    TTGen.C03_Underflow.thresholdAttr = "threshold" := by decide
+    TTGen.C03_Underflow.thresholdAttr = "threshold" ∧ TTGen.C03_Underflow.rootIsRootPartial = true := by decide
 
 /-- **one bad pattern is enough**: the test fires as soon as some site has all root partials below
   the threshold — independently of every other pattern and of any average over patterns -/
